@@ -5,6 +5,7 @@
 //	logh stress G N SEED   G goroutines x N records through one SimpleLogger at mixed levels;
 //	                       one JSON line with the number of lines whose label is not the record's level
 //	logh shared SEED       several SimpleLoggers over one shared *log.Logger (scenarios.go)
+//	logh writers G N CHUNK SEED   concurrent records into a writer that is not atomic per Write call (scenarios.go)
 //	logh hostile           awkward argument values + a later record under a watchdog (scenarios.go)
 package main
 
@@ -15,6 +16,7 @@ import (
 	"fmt"
 	"log"
 	"log/slog"
+	"math"
 	"math/rand"
 	"os"
 	"strconv"
@@ -96,10 +98,26 @@ func matrix() {
 	}
 	msgs := []string{"", "hello", "two words", "a=b, c=d", "disk 95% full", "%s %d %v", "100%"}
 	thresholds := []int{-100, -9, -8, -7, -4, -1, 0, 1, 4, 7, 8, 9, 12, 13, 100}
-	enc := json.NewEncoder(os.Stdout)
+	// thresholds at the extremes of the Level type (an int: 64 bits) and around the 32-bit limits; Level(math.MaxInt) is a
+	// natural "never", Level(math.MinInt) a natural "always".  Fewer argument lists: the shape is covered above.
+	extremes := []int{math.MaxInt, math.MinInt, math.MaxInt - 7, math.MinInt + 8, 1 << 31, 1<<31 - 1, -(1 << 31), -(1 << 31) - 1,
+		1 << 32, 1<<32 + 4, 1<<32 - 8, -(1 << 32), -(1 << 32) - 4, 1 << 40, -(1 << 40), 1<<63 - 1<<32}
+	type thrSpec struct {
+		thr   int
+		lists [][]any
+	}
+	var specs []thrSpec
 	for _, thr := range thresholds {
+		specs = append(specs, thrSpec{thr, argLists})
+	}
+	for _, thr := range extremes {
+		specs = append(specs, thrSpec{thr, argLists[:2]})
+	}
+	enc := json.NewEncoder(os.Stdout)
+	for _, sp := range specs {
+		thr := sp.thr
 		for lvl := 0; lvl < 5; lvl++ {
-			for ai, args := range argLists {
+			for ai, args := range sp.lists {
 				msg := msgs[(ai+lvl)%len(msgs)]
 				rendered := make([]string, len(args))
 				for i, a := range args {
@@ -245,7 +263,7 @@ func stress(g, n int, seed int64) {
 
 func main() {
 	if len(os.Args) < 2 {
-		fmt.Fprintln(os.Stderr, "usage: logh matrix | stress G N SEED | shared SEED | hostile")
+		fmt.Fprintln(os.Stderr, "usage: logh matrix | stress G N SEED | shared SEED | hostile | writers G N CHUNK SEED")
 		os.Exit(2)
 	}
 	switch os.Args[1] {
@@ -261,6 +279,12 @@ func main() {
 		shared(seed)
 	case "hostile":
 		hostile()
+	case "writers":
+		g, _ := strconv.Atoi(os.Args[2])
+		n, _ := strconv.Atoi(os.Args[3])
+		chunk, _ := strconv.Atoi(os.Args[4])
+		seed, _ := strconv.ParseInt(os.Args[5], 10, 64)
+		writers(g, n, chunk, seed)
 	default:
 		os.Exit(2)
 	}
